@@ -71,6 +71,9 @@ impl Profile for ProxyTwin {
         sg.funds_pm = *rng.pick(&[0, 200]);
         sg.typed_pct = *rng.pick(&[0, 50, 100]);
         sg.max_depth = rng.range(0, 2 + crate::extra_depth()) as u32;
+        sg.codes = &wp.codes;
+        sg.code_ids = &base.code_ids;
+        sg.inst_pm = *rng.pick(&[0, 0, 300]);
         if self.custom_chain {
             sg.extra_msgs_pm = *rng.pick(&[0, 400]);
             sg.reply_pm = *rng.pick(&[0, 600]);
@@ -92,6 +95,12 @@ impl Profile for ProxyTwin {
                 17 | 18 => Kind::Instantiate,
                 _ => {
                     ops.push(Op::Block { dh: rng.range(1, 100), dt: rng.range(1, 10_000) });
+                    // ask the very same question again after the clock moved
+                    if let Some(q) = ops.iter().rev().find(|o| matches!(o, Op::Twin(t) if t.hid.starts_with("query:"))).cloned() {
+                        if rng.chance(2, 3) {
+                            ops.push(q);
+                        }
+                    }
                     continue;
                 }
             };
@@ -135,11 +144,14 @@ impl Profile for ProxyTwin {
                 sender: if kind == Kind::Migrate && rng.chance(3, 4) { accounts[3].clone() } else { rng.pick(accounts).clone() },
                 args: Value::Object(args),
                 funds: if kind == Kind::Exec {
-                    match rng.below(6) {
+                    match rng.below(8) {
                         0 => Some(vec![Coin::new(rng.range(1, 60) as u128, "ucoin")]),
                         1 => Some(vec![]),
                         // several coins, in an order of the caller's choosing
                         2 => Some(vec![Coin::new(rng.range(1, 9) as u128, "ucoin"), Coin::new(rng.range(1, 9) as u128, "uatom")]),
+                        // zero amounts are the caller's to send too
+                        3 => Some(vec![Coin::new(0u128, "ucoin")]),
+                        4 => Some(vec![Coin::new(rng.below(2) as u128, "uatom"), Coin::new(rng.range(0, 3) as u128, "ucoin")]),
                         _ => None,
                     }
                 } else {
